@@ -60,7 +60,82 @@ func lockRegion(fn *ssa.Function, isMutex func(v ssa.Value) bool) (region map[ss
 		}
 		walk(in.Block(), instrIndex(in)+1)
 	})
+	// a critical section written as a function literal and handed to a helper that runs it with the mutex held:
+	// `q.locked(func() { ... })` with `func (q *T) locked(f func()) { q.mu.Lock(); defer q.mu.Unlock(); f() }`
+	if fn.Parent() != nil && closureRunsUnderLock(fn) {
+		allInstrs(fn, func(in ssa.Instruction) { region[in] = true })
+		if locks == 0 {
+			locks = 1
+		}
+	}
 	return
+}
+
+var closureLockMemo = map[*ssa.Function]bool{}
+
+// closureRunsUnderLock: every use of the function literal g in its parent hands it to a module function which calls
+// that parameter only while it holds a mutex (and does nothing else with it).
+func closureRunsUnderLock(g *ssa.Function) bool {
+	if v, ok := closureLockMemo[g]; ok {
+		return v
+	}
+	closureLockMemo[g] = false
+	p := g.Parent()
+	uses, ok := 0, true
+	allInstrs(p, func(in ssa.Instruction) {
+		mc, isMc := in.(*ssa.MakeClosure)
+		if !isMc || mc.Fn != ssa.Value(g) || mc.Referrers() == nil {
+			return
+		}
+		for _, ref := range *mc.Referrers() {
+			if _, isDbg := ref.(*ssa.DebugRef); isDbg {
+				continue
+			}
+			c, isCall := ref.(*ssa.Call)
+			if !isCall {
+				ok = false
+				continue
+			}
+			h := c.Call.StaticCallee()
+			if h == nil || !inModule(h) || len(h.Blocks) == 0 {
+				ok = false
+				continue
+			}
+			idx := -1
+			for i, a := range c.Call.Args {
+				if a == ssa.Value(mc) {
+					idx = i
+				}
+			}
+			if idx < 0 || idx >= len(h.Params) {
+				ok = false
+				continue
+			}
+			prm := h.Params[idx]
+			hregion, _ := lockRegion(h, func(v ssa.Value) bool { _, isFa := v.(*ssa.FieldAddr); return isFa })
+			ncalls := 0
+			if prm.Referrers() != nil {
+				for _, pr := range *prm.Referrers() {
+					if _, isDbg := pr.(*ssa.DebugRef); isDbg {
+						continue
+					}
+					pc, isCall := pr.(*ssa.Call)
+					if !isCall || pc.Call.Value != ssa.Value(prm) || !hregion[pc] {
+						ok = false
+						continue
+					}
+					ncalls++
+				}
+			}
+			if ncalls == 0 {
+				ok = false
+			}
+			uses++
+		}
+	})
+	res := ok && uses > 0
+	closureLockMemo[g] = res
+	return res
 }
 
 func checkC16(w *World, r *Report) {
